@@ -44,7 +44,10 @@ Print Assumptions c12_get_many.
 
 (* ---- "anything written by set or set_many is found by get, gets, delete, incr or touch on the same key" ----
    The write and every later single-key operation on that key reach the same server with the same bare key, and the set_many
-   batch sent to that server carries that key's item (what the server then answers is C05). *)
+   batch sent to that server has an entry for that key (what the server then answers is C05).  set_many's per-server batches are
+   dicts (client_batches[server][key] = value): c12_set_many_partition says the batch of a server is the dict built, in order,
+   from exactly the items routing assigns to it - two items whose bare keys are equal and that land on the same server (possible
+   only with (server_key, key) pairs) are one entry, as in the code. *)
 Theorem c12_set_then_op : forall route c mset m key d1 d2 args1 args2 (s : hstate) sv k,
   healthy s -> routed route c (h_nodes s) key = Some (sv, k) -> all_ok 2 s ->
   exists v2 s', hbind (run_cmd route c mset key d1 args1) (fun _ => run_cmd route c m key d2 args2) s = (Ok v2, s') /\
@@ -52,7 +55,7 @@ Theorem c12_set_then_op : forall route c mset m key d1 d2 args1 args2 (s : hstat
 Proof. exact C12Store.set_then_op. Qed.
 Print Assumptions c12_set_then_op.
 Theorem c12_set_many_partition : forall route c nodes values b sv,
-  blookup (vbatches route c nodes values b) sv = blookup b sv ++ items_for route c nodes sv values.
+  blookup (vbatches route c nodes values b) sv = fold_left put_item (items_for route c nodes sv values) (blookup b sv).
 Proof. exact C12Store.vbatches_partition. Qed.
 Theorem c12_set_many : forall route c values args (s : hstate),
   healthy s -> Forall (routable route c (h_nodes s)) values -> all_ok (length (vbatches route c (h_nodes s) values [])) s ->
@@ -61,10 +64,11 @@ Theorem c12_set_many : forall route c values args (s : hstate),
     h_out s' = skipn (length (vbatches route c (h_nodes s) values [])) (h_out s).
 Proof. exact C12Store.set_many_contacts. Qed.
 Theorem c12_set_many_then_op : forall route c values args m key value d2 args2 (s : hstate) sv k,
+  dyn_eqb k k = true ->
   healthy s -> Forall (routable route c (h_nodes s)) values -> In (DTuple [key; value]) values -> routed route c (h_nodes s) key = Some (sv, k) ->
   all_ok (length (vbatches route c (h_nodes s) values []) + 1) s ->
   exists v2 s', hbind (set_many route c values args) (fun _ => run_cmd route c m key d2 args2) s = (Ok v2, s') /\
     contacts s' = contacts s ++ map (fun b => (fst b, 1, DDict (snd b) :: args)) (vbatches route c (h_nodes s) values []) ++ [(sv, m, k :: args2)] /\
-    In (DTuple [k; value]) (blookup (vbatches route c (h_nodes s) values []) sv) /\ NoDup (map fst (vbatches route c (h_nodes s) values [])).
+    dget (blookup (vbatches route c (h_nodes s) values []) sv) k <> None /\ NoDup (map fst (vbatches route c (h_nodes s) values [])).
 Proof. exact C12Store.set_many_then_op. Qed.
 Print Assumptions c12_set_many_then_op.
